@@ -53,6 +53,13 @@ RELEVANT = {
 }
 
 
+def safe_str(v):
+    try:
+        return str(v)[:80]
+    except Exception:  # noqa: BLE001  (bs4 cannot serialise every odd attribute value)
+        return f'<{getattr(v, "name", "?")} {sorted(map(str, getattr(v, "attrs", {})))}>'
+
+
 class StepBudget(Exception):
     pass
 
@@ -199,7 +206,7 @@ def evaluate(case):
                         fn()
                     except Exception as e:  # noqa: BLE001
                         fails.append((f'raises-{type(e).__name__}-{where(e)}',
-                                      f'{name}({text!r}) on the detached element {str(v)[:80]!r} raised {type(e).__name__}: {str(e)[:150]}'))
+                                      f'{name}({text!r}) on the detached element {safe_str(v)!r} raised {type(e).__name__}: {str(e)[:150]}'))
         met.add('detached-element')
     # termination: astronomically large An+B terms must not make matching walk one n at a time. Judged by a step
     # budget (line events inside soupsieve counted by a tracer), never by a clock.
